@@ -5,12 +5,13 @@ import TexcraftModel.Model.C01
 
 `p <ops>` with the ops encoded as
 * `0` = `{`, `1` = `}`
-* `2 pre kind idx val`           assignment (`kind`: 0 count 1 dimen 2 skip 3 toks 4 catcode 5 mathcode 6 param)
+* `2 pre kind idx val`           assignment (`kind`: 0 count 1 dimen 2 skip 3 toks 4 catcode 5 mathcode 6 param;
+                                 only `pre % 10` counts: the tens digit tells the harness how to write it)
 * `3 pre tk tn dk a b`           definition of target `(tk, tn)` (`tk`: 0 control sequence, 1 active char);
                                  `dk`: 0 `\def` body a, 1 `\gdef` body a, 2 `\chardef` a, 3 `\mathchardef` a,
                                  4 `\countdef` a, 5 `\toksdef` a, 6 `\let`=char a, 7 `\let`=`\relax`,
                                  8 `\let`=font selector a, 9 `\let`=target `(a, b)`
-* `4 pre f`                      font selector `f`
+* `4 pre f`                      font selector `f` (only `pre % 10` counts)
 * `5 0 kind idx` / `5 1 tk tn` / `5 2 0 0`   read a variable / a command / the current font
 
 Reply: `S | T | V0 | … | V7`: the specification's outputs, one annotation per op (`L`/`G` effective
@@ -53,7 +54,7 @@ def decOps : Nat → Cur → Option (List Op)
     let kind ← kindOf k
     if pre < 0 ∨ i < 0 then none
     let rest ← decOps fuel t
-    pure (Op.assign pre.toNat ⟨kind, i.toNat⟩ x :: rest)
+    pure (Op.assign (pre.toNat % 10) ⟨kind, i.toNat⟩ x :: rest)
   | fuel + 1, 3 :: pre :: tk :: tn :: dk :: a :: b :: t => do
     let tgt ← targetOf tk tn
     let d ← defOf dk a b
@@ -63,7 +64,7 @@ def decOps : Nat → Cur → Option (List Op)
   | fuel + 1, 4 :: pre :: f :: t => do
     if pre < 0 ∨ f < 0 then none
     let rest ← decOps fuel t
-    pure (Op.selectFont pre.toNat f.toNat :: rest)
+    pure (Op.selectFont (pre.toNat % 10) f.toNat :: rest)
   | fuel + 1, 5 :: 0 :: k :: i :: t => do
     let kind ← kindOf k
     if i < 0 then none
